@@ -92,6 +92,10 @@ FlagPost(p, S) ==   \* p.d = max_order; exact = no probabilities given
   /\ Cliques(p, 2, 2) \subseteq MemberSets(S)
   /\ MemberSets(S) \subseteq Cliques(p, 2, p.d + 1)
   /\ (p.norepeat => MemberSets(S) = Cliques(p, 2, p.d + 1))
+  \* promotion probability 0 => no clique of that size is filled; 1 => every one of them (when the
+  \* larger sizes are not promoted either, nothing else can add or hide them)
+  /\ \A k \in Range(p.zero) : CountSize(S, k) = 0
+  /\ \A k \in Range(p.one) : Cliques(p, k, k) \subseteq MemberSets(S)
 \* a random flag complex is the flag complex of its own 1-skeleton
 SelfFlagPost(p, S) ==
   LET pairs == {X \in MemberSets(S) : Cardinality(X) = 2}
